@@ -149,7 +149,7 @@ func checkC08(c *Ctx, r *Report) {
 			o.Bad("walk ended without a verdict")
 		default:
 			if ret, ok := end.(*ssa.Return); ok {
-				ev := ret.Results[len(ret.Results)-1]
+				ev := resOf(ret, len(ret.Results)-1)
 				if isNilConst(origin(ev)) {
 					o.Bad("with %s, no pending error and an empty buffer, Read returns (0, nil) at %s without decoding: a consumer such as io.Copy spins forever", name, c.pos(ret.Pos()))
 				} else {
@@ -313,7 +313,7 @@ func checkC08(c *Ctx, r *Report) {
 		o = r.Add("C08-sticky", w, "result masked to the requested width", c.pos(fn.Pos()))
 		masked := true
 		for _, ret := range returnsOf(fn) {
-			v := origin(ret.Results[0])
+			v := origin(resOf(ret, 0))
 			if k, isC := constInt(v); isC && k == 0 {
 				continue
 			}
